@@ -15,7 +15,7 @@ MC = {"quick": [("MC_C10", "MC_C10.cfg", 8)], "thorough": [("MC_C10", "MC_C10_th
 TRACE = ("Trace_C10", "Trace_C10.cfg")
 REQUIRED = ["base-0", "base-1", "fill-intfill", "fill-nan", "fill-none", "transposed", "normal", "edge-declared", "edge-implied",
             "coords-plain", "coords-coords", "supplied-en", "supplied-fe", "supplied-ef", "supplied-ff", "supplied-none",
-            "edge-numbering-free", "triangle", "quad", "big-face", "interior-edge", "narrow-index-type"]
+            "edge-numbering-free", "triangle", "quad", "big-face", "interior-edge", "narrow-index-type", "saved-by-emsarray"]
 RULE = ("one case = one valid lattice mesh (family of quads / triangle pairs / absent squares / hexagons with collinear "
         "vertices, plus seeded random meshes to ~60 faces with concave faces) with supplied tables in a non-canonical edge "
         "numbering; one event per encoding: base {0,1} x fill {int _FillValue, NaN, none} x {normal, transposed} x subset of "
@@ -76,6 +76,10 @@ def cases(tier: str, seed: int) -> list[dict]:
         big = max(len(m["nodes"]), len(m["edges"]), len(m["faces"])) + 1
         narrow = "i1" if big < 127 else "i2"
         chosen = list(chosen) + [dict(e, index_dtype=narrow) for e in rng.sample([x for x in encs if x["fill"] != "nan"], 6)]
+        # ... and read from a file that was saved by emsarray itself (integer fill values of every kind, one-based with fill 0)
+        resave = [x for x in encs if x["fill"] == "intfill" and not x["transposed"] and x["coords_as"] == "plain"]
+        chosen = list(chosen) + [dict(x, resave=True) for x in rng.sample(resave, 4)] + \
+            [dict(x, resave=True) for x in resave if x.get("fillvalue") == 0][:2]
         w = W.counts_world("ugrid", nface=len(m["faces"]), nnode=len(m["nodes"]), nedge=len(m["edges"]))
         w["mesh"] = m
         out.append({"src": "gen", "world": w, "events": [{"a": "Topology", "enc": e} for e in chosen]})
@@ -107,6 +111,16 @@ def execute(case: dict) -> dict:
         e = dict(e)
         ww = dict(w); ww["enc"] = dict(e["enc"])
         ds = W.build(ww)
+        if e["enc"].get("resave"):
+            # the mesh as a file: written, opened, saved with the EMS fixes (what the command line and clip do) and opened again
+            import tempfile
+            import xarray
+            from .. import tlc as _tlc
+            with tempfile.TemporaryDirectory(dir=str(_tlc.WORK)) as td:
+                ds.to_netcdf(td + "/first.nc")
+                d1 = xarray.open_dataset(td + "/first.nc").load(); d1.close()
+                d1.ems.to_netcdf(td + "/second.nc")
+                ds = xarray.open_dataset(td + "/second.nc").load(); ds.close()
         before += [[f"{k_ev}:{r[0]}"] + r[1:] for r in snapshot(ds)]
         conv = ds.ems
         topo = conv.topology
